@@ -324,11 +324,12 @@ class Angle(object):
                     raise TypeError("Invalid input value")
                 elif len(deg) == 1:
                     # This is a single value
+                    value = deg[0]
                     if "radians" in kwargs:
                         if kwargs["radians"]:
                             # Input value is in radians. Convert to degrees
-                            deg[0] = degrees(deg[0])
-                    self._deg = Angle.reduce_deg(deg[0])
+                            value = degrees(value)
+                    self._deg = Angle.reduce_deg(value)
                     return
                 elif len(deg) == 2:
                     # Seconds value is set to zero
